@@ -8,6 +8,13 @@ scale="${1:-1}"
 cd "$VERIF/sim" || exit 2
 export CARGO_NET_OFFLINE=true
 cargo build --release --offline -p heap-sim -p lsp-sim -p compile-sim >/dev/null 2>&1 || { echo "HARNESS ERROR: build failed"; exit 2; }
+# compile-sim as ./check C12 runs it: with edge instrumentation (preemption at basic-block edges)
+CS="$VERIF/sim/target/release/compile-sim"
+if [ "$(uname -m)" = "x86_64" ] && [ -z "${VERIF_NO_EDGE_PREEMPTION:-}" ]; then
+  RUSTFLAGS="--cfg samlang_verif -Cpasses=sancov-module -Cllvm-args=-sanitizer-coverage-level=3 -Cllvm-args=-sanitizer-coverage-trace-pc-guard" \
+    cargo build --release --offline -p compile-sim --target-dir "$VERIF/sim/target-sancov" --target x86_64-unknown-linux-gnu >/dev/null 2>&1 || { echo "HARNESS ERROR: instrumented build failed"; exit 2; }
+  CS="$VERIF/sim/target-sancov/x86_64-unknown-linux-gnu/release/compile-sim"
+fi
 work="$VERIF/sim/target/audit"; rm -rf "$work"; mkdir -p "$work/evidence" "$work/replays"
 cp "$VERIF/known_findings.json" "$work/"
 export VERIF_ROOT="$work"
@@ -27,10 +34,10 @@ audit() { # name, command...
   fi
 }
 B="$VERIF/sim/target/release"
-audit heap-sim   "$B/heap-sim" --runs $((20000*scale))
-audit lsp-sim-C10 "$B/lsp-sim" --property C10 --runs $((1500*scale)) --no-minimise
-audit lsp-sim-C11 "$B/lsp-sim" --property C11 --runs $((1500*scale)) --no-minimise
-audit lsp-sim-C16 "$B/lsp-sim" --property C16 --runs $((1500*scale)) --no-minimise
-audit compile-sim "$B/compile-sim" --p1 $((3*scale)) --p2 6 --p3 12
+[ -n "${AUDIT_ONLY_COMPILE:-}" ] || audit heap-sim   "$B/heap-sim" --runs $((20000*scale))
+[ -n "${AUDIT_ONLY_COMPILE:-}" ] || audit lsp-sim-C10 "$B/lsp-sim" --property C10 --runs $((1500*scale)) --no-minimise
+[ -n "${AUDIT_ONLY_COMPILE:-}" ] || audit lsp-sim-C11 "$B/lsp-sim" --property C11 --runs $((1500*scale)) --no-minimise
+[ -n "${AUDIT_ONLY_COMPILE:-}" ] || audit lsp-sim-C16 "$B/lsp-sim" --property C16 --runs $((1500*scale)) --no-minimise
+audit compile-sim "$CS" --p1 $((3*scale)) --p2 6 --p3 12 --p4 $((40*scale))
 rm -rf "$work"
 exit $rc
